@@ -167,6 +167,15 @@ def t_to_async_iter(E):
         st['must_be_worker'] = None
         src_of = lambda it: S_ if it is S_.obj else None   # noqa: E731
 
+        def eager_copy(E_, v, node):
+            if v is S_.obj:
+                E.oblige(Qn + '/effect.source_is_pulled_one_element_per_yield', z3.BoolVal(False), props={'C16', 'C03'},
+                         detail='tuple()/list()/sorted()/unpacking of the source pulls it dry first: a source that '
+                                'fails after n elements delivers none of them, an endless or slow one delivers nothing')
+                raise PathEnd()
+            return None
+        Bn['__unpack__'] = eager_copy
+
         def on_yield(E_, fr, v, node):
             if not (isinstance(v, VVal) and v.t.sort() == ValS):
                 raise Unsupported('yield of %r' % (v,), node)
@@ -282,6 +291,20 @@ def t_to_async_iter(E):
                         st['avail_lb'] = None
                         return VVal(chan[d])
                     return VStub('Queue.get_nowait', get_nowait)
+            if isinstance(o, Obj) and o.cls == 'ExecFuture' and name in ('result', 'exception'):
+                def result_now(E_, a, k):
+                    """Future.result() does not wait: InvalidStateError unless the worker has already returned -- and the
+                    worker returns only AFTER handing the end marker over, so the consumer may well get here first"""
+                    if not E.branch(E.fresh('worker_future_done', z3.BoolSort())):
+                        E.throw('InvalidStateError', origin='result() of a future that is not done')
+                    st['future_awaited'] = True
+                    kind, exc = o.fields['outcome']
+                    if name == 'exception':
+                        raise Unsupported('Future.exception()', node)
+                    if kind == 'exc':
+                        raise PyExc(exc)
+                    return NONE
+                return VStub('Future.' + name, result_now)
             if isinstance(o, Obj) and o.cls == 'ExecFuture' and name == 'done':
                 # the worker hands the sentinel over and only then finishes: whether the future is already done
                 # when the consumer looks is a race, either answer is possible
@@ -686,6 +709,15 @@ def install_c17(E, st, Qn):
                 return VStub('loop.call_soon_threadsafe', cst)
             if name == 'stop':
                 return VStub('loop.stop', lambda E_, a, k: NONE, attrs={'loop': o})
+        if isinstance(o, Obj) and o.cls == 'ConcFuture' and name in ('result', 'exception'):
+            def blocking_result(E_, a, k):
+                E.oblige('%s/bridge.waiting_for_the_target_never_blocks_the_callers_loop' % st['top'], z3.BoolVal(False),
+                         props={'C17'},
+                         detail='concurrent.futures.Future.%s() blocks the calling THREAD -- the caller\'s event loop: an '
+                                'awaitable that needs that loop to make progress (the target is the caller\'s own loop, or '
+                                'it awaits something back on it) never finishes, and nothing else runs meanwhile' % name)
+                raise PathEnd()
+            return VStub('Future.' + name, blocking_result)
         if isinstance(o, Obj) and o.cls == 'LoopLock' and name == 'locked':
             # held by whoever runs the loop THROUGH THIS LIBRARY; a loop run by a plain thread of the user holds no
             # such lock: says nothing about loop.is_running()
@@ -753,6 +785,24 @@ def install_c17(E, st, Qn):
     Bn[('module', MOD, '_CROSS_LOOP_POOL')] = Obj('Executor', dict(workers=VInt(32), shared=True))
 
 
+def pool_capacity_obligation(E, mod, Qn):
+    """Every borrowed idle loop and every loop_in_thread loop occupies one thread of the shared pool for as long as it
+    runs; "every call completes when its awaitable does" is proved under the assumption that fewer loops are run this
+    way at a time than the pool has threads (32 as documented).  A capacity left to the host (ThreadPoolExecutor():
+    min(32, cpu_count + 4), i.e. 5 on a one-CPU container) or a smaller one voids that assumption."""
+    import ast as _ast
+    expr = mod.assigns.get('_CROSS_LOOP_POOL')
+    n = None
+    if isinstance(expr, _ast.Call) and _ast.unparse(expr.func).split('.')[-1] == 'ThreadPoolExecutor':
+        arg = expr.args[0] if expr.args else next((k.value for k in expr.keywords if k.arg == 'max_workers'), None)
+        if isinstance(arg, _ast.Constant) and isinstance(arg.value, int):
+            n = arg.value
+    E.oblige(Qn + '/resource.cross_loop_pool_has_a_fixed_capacity_of_at_least_32', z3.BoolVal(n is not None and n >= 32),
+             props={'C17'}, detail='_CROSS_LOOP_POOL = %s' % (_ast.unparse(expr) if expr is not None else None))
+    E.used('assume: fewer than 32 loops are borrowed through ensure_aw or run through loop_in_thread at any one time '
+           '(capacity of the shared pool)')
+
+
 def t_ensure_aw(E):
     c17_engine(E)
     mod = E.modules[MOD]
@@ -805,6 +855,7 @@ def t_ensure_aw(E):
                             ev[0][1] == target if ev else False), props={'C17', 'C07'},
                      detail='wait_from_anywhere() runs the buffer\'s wait() through this: on the buffer\'s loop, once')
         E.oblige(Qn + '/ensures.loop_lock_released', z3.BoolVal(not st.get('held_loop_locks')))
+        pool_capacity_obligation(E, mod, Qn)
         if 'executor_used' in st:
             ex = st['executor_used']
             E.oblige(Qn + '/resource.idle_target_is_run_in_the_dedicated_cross_loop_pool',
